@@ -95,3 +95,43 @@ def run_selftest(pids: List[str], jobs: int = 16, seed: int = 0, quiet: bool = T
         if not quiet:
             print(f"  {r['pid']} {r['kind']:7s} {r['id']:45s} {r['status']:15s} {','.join(r['rules'])} {r['detail'][:100]}")
     return out
+
+
+def _cross_one(args) -> dict:
+    """Run property `chk`'s rules on the overlay of the equivalent variant `idx` of property `owner`."""
+    owner, idx, chk = args
+    m = importlib.import_module(f"pvs.props.{owner.lower()}").MUTANTS[idx]
+    mod = importlib.import_module(f"pvs.props.{chk.lower()}")
+    ov = build_overlay(Tree(), m)
+    res = {"owner": owner, "id": m["id"], "check": chk, "status": "", "detail": ""}
+    if ov is None:
+        res["status"] = "skipped"
+        return res
+    try:
+        ctx = run_rules(mod.SPEC, "quick", Tree(overlay=ov))
+        known = load_known_findings()
+        viol = [o for o in ctx.violations if match_known(o, chk, known) is None]
+        res["status"] = "violation" if viol else "silent"
+        res["detail"] = "; ".join(f"{o.rule}@{o.function}" for o in viol[:3])
+    except AnalysisError as exc:
+        res["status"] = "analysis-error"
+        res["detail"] = str(exc)[:200]
+    except Exception as exc:  # pylint: disable=broad-except
+        res["status"] = "crash"
+        res["detail"] = f"{type(exc).__name__}: {exc}"[:200]
+    return res
+
+
+def run_cross(pids: List[str], jobs: int = 16) -> List[dict]:
+    """Every behaviour-preserving variant of every property against the rule sets of *all* properties: none may
+    report a violation (a false alarm) or lose sight of the code (analysis error)."""
+    tasks = []
+    for owner in pids:
+        mod = importlib.import_module(f"pvs.props.{owner.lower()}")
+        for i, m in enumerate(getattr(mod, "MUTANTS", [])):
+            if m.get("kind") == "equiv":
+                for chk in pids:
+                    if chk != owner:
+                        tasks.append((owner, i, chk))
+    with Pool(min(jobs, max(1, len(tasks)))) as pool:
+        return pool.map(_cross_one, tasks, chunksize=4)
